@@ -1,6 +1,8 @@
 package main
 
 import (
+	"bytes"
+	"io"
 	"context"
 	"encoding/base64"
 	"encoding/json"
@@ -291,6 +293,42 @@ func runScalars(raw json.RawMessage, seed int64, rec *Rec) {
 		}
 		slack := (at - asked) / 1e6 // measured bracket in ms between Deadline() and the header being final
 		rec.Add(E("result", "chars", chars, "slack_ms", slack+1, "present", val != "", "count", count))
+	case "enc_reuse":
+		// a unary *connect.Request sent twice through a client that compresses above a threshold: first with a large
+		// message (compressed), then with a small one (not compressed). The second exchange must be consistent: the
+		// encoding header names an algorithm iff the body is compressed, and the handler gets the small message.
+		var seen []byte
+		var hdrEnc string
+		var bodyGz bool
+		h := connect.NewUnaryHandler("/verif.v1.Svc/M", func(_ context.Context, r *connect.Request[BV]) (*connect.Response[BV], error) {
+			seen = append([]byte(nil), r.Msg.Value...)
+			return connect.NewResponse(&BV{}), nil
+		})
+		spy := http.HandlerFunc(func(w http.ResponseWriter, r *http.Request) {
+			raw, _ := io.ReadAll(r.Body)
+			hdrEnc = r.Header.Get("Content-Encoding") + r.Header.Get("Grpc-Encoding")
+			if s.Proto == "connect" {
+				bodyGz = len(raw) > 2 && raw[0] == 0x1f && raw[1] == 0x8b
+			} else {
+				bodyGz = len(raw) > 0 && raw[0]&1 == 1
+			}
+			r.Body = io.NopCloser(bytes.NewReader(raw))
+			h.ServeHTTP(w, r)
+		})
+		client := connect.NewClient[BV, BV](&memTransport{h: spy, major: 2}, "http://verif.test/verif.v1.Svc/M",
+			append(clientProtoOpts(s.Proto), connect.WithSendGzip(), connect.WithCompressMinBytes(64))...)
+		big := bytes.Repeat([]byte{7}, 300)
+		small := []byte{1, 2, 3}
+		first, second := big, small
+		if s.Used == "small-first" {
+			first, second = small, big
+		}
+		req := connect.NewRequest(&BV{Value: first})
+		_, err1 := client.CallUnary(context.Background(), req)
+		req.Msg.Value = second
+		_, err2 := client.CallUnary(context.Background(), req)
+		rec.Add(E("result", "ok1", err1 == nil, "ok", err2 == nil, "code", codeOf(err2), "same", bytes.Equal(seen, second),
+			"hdrenc", hdrEnc != "" && hdrEnc != "identity", "bodycomp", bodyGz, "large", len(second) >= 64))
 	case "client_init_fail":
 		// a client whose configuration is invalid (unknown send compression): every API of every call kind reports the
 		// configuration error; nothing panics, blocks or reaches the transport
